@@ -240,25 +240,39 @@ def r3(repo, res):
            found="ok on 63 grid points" if bad is None else bad,
            clause="every yielded solution lies within the gap of the optimum", key="gap-test")
     # (c) best objective fixed by the first solve and passed on unchanged
-    bdef = [n for n in walk_local(f) if isinstance(n, ast.Assign) and isinstance(n.targets[0], ast.Name)
-            and n.targets[0].id == "best_obj"]
-    ok = False
-    found = "no assignment"
-    if len(bdef) == 1:
+    tr = [n for n in walk_local(f) if isinstance(n, ast.Try)]
+    body = tr[0].body if tr else f.body
+    solve_i = next((i for i, st in enumerate(body) if isinstance(st, ast.Assign) and isinstance(st.value, ast.Call)
+                    and call_name(st.value).endswith("solve")), None)
+    y_i = next((i for i, st in enumerate(body) if st is y.ast), None)
+    ok, found = False, "statements between solve and yield not found"
+    if solve_i is not None and y_i is not None:
+        prefix = body[solve_i + 1:y_i]
         try:
-            v1 = Evaluator({"best_obj": None, oname: 5.0}).ev(bdef[0].value)
-            v2 = Evaluator({"best_obj": 3.0, oname: 5.0}).ev(bdef[0].value)
-            ok = v1 == 5.0 and v2 == 3.0 and c.dominates(c.node_of(bdef[0]), y.id)
-            found = ast.unparse(bdef[0])
+            outs = []
+            for given in (None, 3.0):
+                ev = Evaluator({sname: "optimal", oname: 5.0, "gap": 100.0, "self": Obj(variables=lambda: [], varName=lambda v: v,
+                                                                                   is_binary=lambda v: False, getValue=lambda v: 0)},
+                               consts=consts)
+                ev.locals["best_obj"] = given
+                k_, v_ = ev.run(prefix)
+                outs.append((k_, ev.locals.get("best_obj")))
+            ok = outs == [("fall", 5.0), ("fall", 3.0)]
+            found = f"best_obj after the first solve: given None -> {outs[0][1]}, given 3.0 -> {outs[1][1]}"
         except (Unfoldable, Raised) as e:
             found = f"unfoldable {e}"
     rc = rec.ast.value.value
-    passed = isinstance(rc, ast.Call) and (
-        (len(rc.args) > 1 and ast.unparse(rc.args[1]) == "best_obj") or
-        (kwarg(rc, "best_obj") is not None and ast.unparse(kwarg(rc, "best_obj")) == "best_obj"))
-    gap_passed = isinstance(rc, ast.Call) and ((rc.args and ast.unparse(rc.args[0]) == "gap") or
-                                               (kwarg(rc, "gap") is not None and ast.unparse(kwarg(rc, "gap")) == "gap"))
-    res.ob("C05.R3", f, bdef[0] if bdef else f, ok and passed and gap_passed,
+    passed = gap_passed = False
+    if isinstance(rc, ast.Call):
+        try:
+            ev = Evaluator({"gap": 0.25, "best_obj": 7.5, "limit": None, "iteration": 4, "init": None}, defs=defs)
+            vals = [ev.ev(a) for a in rc.args] + [ev.ev(k_.value) for k_ in rc.keywords]
+            names = [None] * len(rc.args) + [k_.arg for k_ in rc.keywords]
+            passed = (len(rc.args) > 1 and vals[1] == 7.5) or any(n_ == "best_obj" and v_ == 7.5 for n_, v_ in zip(names, vals))
+            gap_passed = (len(rc.args) > 0 and vals[0] == 0.25) or any(n_ == "gap" and v_ == 0.25 for n_, v_ in zip(names, vals))
+        except (Unfoldable, Raised) as e:
+            found += f"; recursive call unfoldable {e}"
+    res.ob("C05.R3", f, rec.ast, ok and passed and gap_passed,
            expected="best_obj = first objective (kept when given) and handed unchanged, with gap, to the recursive call",
            found=f"{found}; recursive call {ast.unparse(rc)[:80]}", key="best-fixed")
     # (d) exclusion cut between yield and recursion
@@ -270,11 +284,16 @@ def r3(repo, res):
            found="ok" if cuts and not leak else "a path re-solves without excluding the yielded assignment",
            clause="no binary assignment is yielded twice", key="cut-before-recursion")
     yv = y.ast.value.value
-    ykeys = None
-    if isinstance(yv, ast.Tuple) and len(yv.elts) == 3:
-        for n in ast.walk(yv.elts[2]):
-            if isinstance(n, ast.Call) and isinstance(n.func, ast.Attribute) and n.func.attr == "keys":
-                ykeys = ast.unparse(n.func.value)
+
+    def yields_keys_of(name):
+        """Does the third yielded component denote exactly the (sorted) keys of mapping `name`?"""
+        if not (isinstance(yv, ast.Tuple) and len(yv.elts) == 3):
+            return False
+        try:
+            v = Evaluator({name: {"b": 1, "a": 2, "c": 3}}, funcs={"sorted_tuple": lambda it: tuple(sorted(it))}).ev(yv.elts[2])
+            return tuple(v) == ("a", "b", "c")
+        except (Unfoldable, Raised):
+            return False
     for x in cuts:
         cmp = x.args[0]
         ok = False
@@ -286,15 +305,20 @@ def r3(repo, res):
                 vv = ast.unparse(l.args[0].func.value)
                 try:
                     rhs = Evaluator({vv: {"a": 1, "b": 1, "c": 1}}).ev(r)
-                    ok = rhs == 2 and vv == ykeys
-                    found += f"  (rhs on 3 active binaries = {rhs}; yielded keys of `{ykeys}`)"
+                    ok = rhs == 2 and yields_keys_of(vv)
+                    found += f"  (rhs on 3 active binaries = {rhs}; yield lists the keys of `{vv}`: {yields_keys_of(vv)})"
                 except (Unfoldable, Raised) as e:
                     found += f" unfoldable {e}"
         res.ob("C05.R3", f, x, ok, expected="cut: sum(active binaries) <= (number of active binaries) - 1, over the mapping whose keys were yielded",
                found=found, key="cut-form")
     # the active set = exactly the binaries whose read-back value is 1
+    cutvv = None
+    for x in cuts:
+        for n_ in ast.walk(x):
+            if isinstance(n_, ast.Call) and isinstance(n_.func, ast.Attribute) and n_.func.attr == "values" and isinstance(n_.func.value, ast.Name):
+                cutvv = n_.func.value.id
     vdef = [n for n in walk_local(f) if isinstance(n, ast.Assign) and isinstance(n.targets[0], ast.Name)
-            and n.targets[0].id == (ykeys or "vv") and isinstance(n.value, ast.DictComp)]
+            and n.targets[0].id == (cutvv or "vv") and isinstance(n.value, ast.DictComp)]
     ok = False
     found = "definition not found"
     if vdef:
@@ -327,7 +351,7 @@ def r3(repo, res):
         alive = True
         for t, p in extra:
             try:
-                v = bool(Evaluator({"limit": lim, "iteration": it}).ev(t))
+                v = bool(Evaluator({"limit": lim, "iteration": it}, defs=defs).ev(t))
             except (Unfoldable, Raised):
                 ok = False
                 continue
@@ -335,7 +359,13 @@ def r3(repo, res):
                 alive = False
         rows.append(f"limit={lim},iter={it}:{'recurse' if alive else 'stop'}")
         ok = ok and alive == want
-    it_arg = isinstance(rc, ast.Call) and any(ast.unparse(a) == "iteration + 1" for a in list(rc.args) + [k.value for k in rc.keywords])
+    it_arg = False
+    if isinstance(rc, ast.Call):
+        try:
+            ev = Evaluator({"gap": 0.25, "best_obj": 7.5, "limit": None, "iteration": 4, "init": None}, defs=defs)
+            it_arg = any(ev.ev(a) == 5 for a in list(rc.args) + [k.value for k in rc.keywords])
+        except (Unfoldable, Raised):
+            it_arg = False
     res.ob("C05.R3", f, rec.ast, ok and it_arg, expected="recursion continues unless a positive limit is reached; iteration + 1 passed on",
            found=" ".join(rows), key="limit")
 
